@@ -266,7 +266,16 @@ func encSkipCond(fset *token.FileSet, body []ast.Stmt) string {
 	if !ok || is.Init != nil || is.Else != nil || len(is.Body.List) != 1 {
 		return "-"
 	}
-	if br, ok := is.Body.List[0].(*ast.BranchStmt); !ok || br.Tok != token.CONTINUE {
+	switch t := is.Body.List[0].(type) {
+	case *ast.BranchStmt:
+		if t.Tok != token.CONTINUE {
+			return "-"
+		}
+	case *ast.ReturnStmt:
+		if len(t.Results) != 0 {
+			return "-"
+		}
+	default:
 		return "-"
 	}
 	return rflExprText(fset, is.Cond)
@@ -433,6 +442,59 @@ func encOmitTests(repo string, b *strings.Builder) error {
 			fmt.Fprintf(b, "/-- %s/%s %s: `switch kind` after aJustKey: (case, the tests under which the key is taken back) -/\ndef %s%sKinds : List (String × String) := %s\n\n",
 				pkg, w.file, w.fn, pkg, strings.ToUpper(w.fn[:1])+w.fn[1:], encLeanPairs(ps))
 		}
+	}
+	// alt: condMapSet, the type switch on the decomposed value
+	{
+		fset, f, err := rflParse(repo, "alt", "decompose.go")
+		if err != nil {
+			return err
+		}
+		fd := rflFuncDecl(f, "", "condMapSet")
+		if fd == nil {
+			return fmt.Errorf("reflect_enc extractor: alt/decompose.go: func condMapSet not found")
+		}
+		ccs := encSwitchCases(fset, fd, "", "value")
+		if len(ccs) == 0 {
+			return fmt.Errorf("reflect_enc extractor: alt.condMapSet: no type switch on the value")
+		}
+		var ps [][2]string
+		for _, cc := range ccs {
+			ps = append(ps, [2]string{encCaseNames(fset, cc), encSkipCond(fset, cc.Body)})
+		}
+		fmt.Fprintf(b, "/-- alt/decompose.go condMapSet: the type switch on the decomposed value: (case, the test under which the member is not stored) -/\ndef altCondMapSetCases : List (String × String) := %s\n\n", encLeanPairs(ps))
+	}
+	// pretty: every `skip` of a node, per builder function
+	{
+		fset, f, err := rflParse(repo, "pretty", "build.go")
+		if err != nil {
+			return err
+		}
+		var ps [][2]string
+		for _, d := range f.Decls {
+			fd, ok := d.(*ast.FuncDecl)
+			if !ok || fd.Body == nil {
+				continue
+			}
+			ast.Inspect(fd.Body, func(n ast.Node) bool {
+				switch t := n.(type) {
+				case *ast.KeyValueExpr:
+					if id, ok := t.Key.(*ast.Ident); ok && id.Name == "skip" {
+						ps = append(ps, [2]string{fd.Name.Name, rflExprText(fset, t.Value)})
+					}
+				case *ast.AssignStmt:
+					if len(t.Lhs) == 1 && len(t.Rhs) == 1 {
+						if se, ok := t.Lhs[0].(*ast.SelectorExpr); ok && se.Sel.Name == "skip" {
+							ps = append(ps, [2]string{fd.Name.Name, rflExprText(fset, t.Rhs[0])})
+						}
+					}
+				}
+				return true
+			})
+		}
+		if len(ps) == 0 {
+			return fmt.Errorf("reflect_enc extractor: pretty/build.go: no skip test found")
+		}
+		fmt.Fprintf(b, "/-- pretty/build.go: every value given to a node's `skip`, per builder function, in source order -/\ndef prettySkips : List (String × String) := %s\n\n", encLeanPairs(ps))
 	}
 	return nil
 }
